@@ -596,6 +596,32 @@ fn nested_rings(exact: bool) -> BoxedStrategy<Vec<Part>> {
         .boxed()
 }
 
+/// A coordinate sequence in which, one time in three, some coordinate is repeated right after itself (and one time
+/// in six all coordinates are the same).
+fn with_repeats(v: BoxedStrategy<Vec<XY>>) -> BoxedStrategy<Vec<XY>> {
+    (v, 0u8..6, any::<u16>())
+        .prop_map(|(mut v, rel, ix)| {
+            if !v.is_empty() {
+                let i = gen::pick(ix, v.len());
+                match rel {
+                    0 | 1 => {
+                        let d = v[i];
+                        v.insert(i + 1, d);
+                    }
+                    2 => {
+                        let d = v[i];
+                        for x in v.iter_mut() {
+                            *x = d;
+                        }
+                    }
+                    _ => {}
+                }
+            }
+            v
+        })
+        .boxed()
+}
+
 /// Relations BETWEEN the rings of one shape: one time in three a ring's X/Y sequence (optionally Z and M as well) is
 /// copied onto another ring, whatever the two rings' roles.
 fn with_repeated_ring(rings: BoxedStrategy<Vec<Part>>) -> BoxedStrategy<Vec<Part>> {
@@ -678,9 +704,9 @@ impl RandomProp for Geo {
             2 => patch,
             1 => xy(false).prop_map(GeoCase::GeoPoint),
             1 => (xy(false), xy(false)).prop_map(|(a, b)| GeoCase::GeoLine(a, b)),
-            1 => proptest::collection::vec(xy(false), 2..8).prop_map(GeoCase::GeoLineString),
-            1 => proptest::collection::vec(proptest::collection::vec(xy(false), 2..6), 1..5).prop_map(GeoCase::GeoMultiLineString),
-            1 => proptest::collection::vec(xy(false), 1..8).prop_map(GeoCase::GeoMultiPoint),
+            1 => with_repeats(proptest::collection::vec(xy(false), 2..8).boxed()).prop_map(GeoCase::GeoLineString),
+            1 => proptest::collection::vec(with_repeats(proptest::collection::vec(xy(false), 2..6).boxed()), 1..5).prop_map(GeoCase::GeoMultiLineString),
+            2 => with_repeats(proptest::collection::vec(xy(false), 1..8).boxed()).prop_map(GeoCase::GeoMultiPoint),
             2 => gpoly,
             1 => gpoly_any,
             1 => refuse,
